@@ -70,8 +70,14 @@ type c11Op struct {
 	// the cursors partition refused the message (c11Refusal): such a set never
 	// takes effect.  Every other failed set stays open (unknown outcome).
 	Refused string `json:"refused,omitempty"`
-	Phase  string `json:"phase"`
-	Node   string `json:"node"`
+	// Committed (failed sets only): harness clock reading taken after the
+	// harness itself had read this set's cursor message below the high
+	// watermark of the cursors partition's log (0 = never seen there).  The
+	// caller was told the set failed, but from that instant on its message has
+	// a place in the log, in front of every message published later.
+	Committed int64  `json:"committed_seen_ns,omitempty"`
+	Phase     string `json:"phase"`
+	Node      string `json:"node"`
 }
 
 type c11Pending struct {
@@ -83,6 +89,12 @@ type c11Pending struct {
 // It returns the verdict ("Ok" / "Illegal" / "Unknown") and the keys whose
 // sub-history is not linearizable.
 var c11CheckHistory func(ops []c11Op, timeout time.Duration) (verdict string, badKeys []string)
+
+// c11CheckHistoryLatent (same file): the model for histories with repeated
+// offsets and commit observations of failed sets (c11Env.repeat): a failed set
+// never becomes the current value, it is a value fetches may show until the
+// next acknowledged set.
+var c11CheckHistoryLatent func(ops []c11Op, timeout time.Duration) (verdict string, badKeys []string)
 
 type c11Cfg struct {
 	Parts     int32
@@ -107,6 +119,11 @@ type c11Env struct {
 	seed uint64
 	cfg  c11Cfg
 	unit string
+	// repeat: the history passes the same offset to several sets of one cursor
+	// (re-committed positions) and stamps failed sets it saw committed: fetches
+	// are judged by c11JudgeRepeat (c11_abandonset_test.go) instead of c11Judge,
+	// which identifies a value's set by the value.
+	repeat bool
 
 	mu      sync.Mutex
 	ops     []c11Op
@@ -164,6 +181,24 @@ func (e *c11Env) record(op c11Op) c11Op {
 	e.ops = append(e.ops, op)
 	e.mu.Unlock()
 	return op
+}
+
+// markCommitted stamps a recorded failed set with the time at which the
+// harness saw its message committed in the cursors log.
+func (e *c11Env) markCommitted(seq int, at int64) {
+	e.mu.Lock()
+	if seq >= 0 && seq < len(e.ops) {
+		e.ops[seq].Committed = at
+	}
+	e.mu.Unlock()
+}
+
+// judgeFetch applies the direct oracle of this history to one fetch.
+func (e *c11Env) judgeFetch(keyOps []c11Op, valKey map[int64]string, f c11Op) (kind, what string) {
+	if e.repeat {
+		return c11JudgeRepeat(keyOps, valKey, f)
+	}
+	return c11Judge(keyOps, valKey, f)
 }
 
 func (e *c11Env) snapshot() []c11Op {
@@ -415,6 +450,14 @@ func (e *c11Env) fingerprint(kind, phase string) string {
 	if kind == "refused-set-value" {
 		// one defect, one fingerprint, wherever the value of the failed set shows up
 		return "C11:value-of-refused-set-returned"
+	}
+	if strings.HasPrefix(kind, "abandoned-set-value") {
+		// c11JudgeRepeat: the value of a set that failed for its caller came
+		// back although a later set was acknowledged after the failed one's
+		// message had been seen committed; the suffix names the history shape
+		// (the acknowledged set passed a new value | re-committed the value
+		// acknowledged before), not where the value was seen
+		return "C11:value-of-abandoned-set-returned-after-later-acknowledged-set" + strings.TrimPrefix(kind, "abandoned-set-value")
 	}
 	fp := "C11:" + kind + "-" + c11Context(phase)
 	if strings.HasPrefix(phase, "close-during-compaction") || strings.HasPrefix(phase, "keys-") || strings.HasPrefix(phase, "refused") {
@@ -707,7 +750,7 @@ func c11SegmentBaseOffsets(srv *Server, pid int32) []int64 {
 func (e *c11Env) judgeNow(f c11Op, inline bool) bool {
 	ops := e.snapshot()
 	byKey, valKey := c11Index(ops)
-	kind, what := c11Judge(byKey[f.Key], valKey, f)
+	kind, what := e.judgeFetch(byKey[f.Key], valKey, f)
 	if kind == "" {
 		return true
 	}
@@ -1198,7 +1241,7 @@ func (e *c11Env) finish() {
 		if seen {
 			continue
 		}
-		if kind, what := c11Judge(byKey[o.Key], valKey, o); kind != "" {
+		if kind, what := e.judgeFetch(byKey[o.Key], valKey, o); kind != "" {
 			e.violation(kind, o.Phase, what, o.Key, o.Seq)
 		}
 	}
@@ -1209,7 +1252,11 @@ func (e *c11Env) finish() {
 		e.rep.Inconc("porcupine checker not linked (binary built without the verifporc tag)")
 		return
 	}
-	verdict, bad := c11CheckHistory(ops, 60*time.Second)
+	check := c11CheckHistory
+	if e.repeat && c11CheckHistoryLatent != nil {
+		check = c11CheckHistoryLatent
+	}
+	verdict, bad := check(ops, 60*time.Second)
 	e.rep.Count("porcupine_"+strings.ToLower(verdict), 1)
 	switch verdict {
 	case "Unknown":
